@@ -852,6 +852,12 @@ def c04(project, obs, view=None):
             for e in v.execs:
                 if e.unit[0] == "hook" and e.unit[2] == "setup_suite" and tuple(e.unit[1]) == info["sp"] and (e.end is None or e.end > started):
                     out.append(F("C04/body-started-before-suite-setup-finished", "%s started at %d, setup_suite ended at %r" % (tp, started, e.end)))
+            # "… and before its suite's setup has finished": a setup that never ran has not finished either — a suite that defines a
+            # setup_suite hook ran it to its end before any of its test bodies is entered (a setup that fails skips the tests)
+            if info["s"]["setup_suite"] is not None and not any(
+                    e.unit[0] == "hook" and e.unit[2] == "setup_suite" and tuple(e.unit[1]) == info["sp"] for e in v.execs):
+                out.append(F("C04/body-started-before-suite-setup-finished/setup-never-ran",
+                             "%s started at %d, the setup_suite hook of its suite %s was never run" % (tp, started, list(info["sp"]))))
             ti = v.task_of_path.get(("init", info["sp"]))
             if ti is not None:
                 fin = v.first("finish", ti)
